@@ -614,6 +614,7 @@ def run_scenario(spec):
             up = w.upstream()
             seq = []
             if st.get('noyes'): seq.append(('noyes', False, False))
+            if st.get('dry_noyes'): seq.append(('dry_noyes', True, False))
             if st.get('dry_first'): seq.append(('dry', True, True))
             seq.append(('real', False, True))
             if st.get('second'): seq.append(('second', False, True))
@@ -648,6 +649,12 @@ def check_step(w, R, spec, st, got):
         iv = got['noyes']
         if iv['ob']['code'] != 'E_CONFIRM_REQUIRED': viol('overlay rebase --json without --yes was not refused with E_CONFIRM_REQUIRED', got=iv['ob']['code'])
         if iv['raw_before'] != iv['raw_after']: viol('refused overlay rebase changed the overlay directory')
+    # --json --dry-run without --yes is allowed to run, but like every invocation without --yes it writes nothing
+    if 'dry_noyes' in got:
+        iv = got['dry_noyes']
+        if iv['raw_before'] != iv['raw_after']:
+            viol('overlay rebase --json --dry-run without --yes changed the overlay directory',
+                 changed=sorted(k for k in set(iv['raw_before']) | set(iv['raw_after']) if iv['raw_before'].get(k) != iv['raw_after'].get(k)))
     # dry run: byte-identical overlay dir (baseline included) and the same report as the real run
     if 'dry' in got:
         iv = got['dry']
